@@ -801,6 +801,12 @@ def run(ctx):
     import logging
     logging.disable(logging.CRITICAL)
 
+    import nemoguardrails
+    pkg = os.path.dirname(os.path.abspath(nemoguardrails.__file__))
+    if pkg != "/repo/nemoguardrails":
+        ctx.note("package under test imported from %s (VERIF_REPO_PATH)" % pkg)
+    assert pkg == os.path.join(os.path.abspath(REPO), "nemoguardrails"), "wrong package imported: %s" % pkg
+
     # ---- 1. corpus
     corpus, skipped = build_corpus(ctx)
     nseed = sum(1 for c in corpus if c["seed"])
